@@ -22,8 +22,8 @@ func init() {
 type hPresence struct {
 	flip  int
 	flip2 int
-	next int
-	src  []bool // nil-ness recorded while building the first trip
+	next  int
+	src   []bool // nil-ness recorded while building the first trip
 }
 
 func (p *hPresence) first(tag string) bool { // is nil?
